@@ -115,8 +115,9 @@ def reviewed : List Exc := [
   ⟨12483211244307257458, "internal/engine/parser.go:sameValue:reflectV:b.Len", rSame⟩,
   ⟨17464858775677179629, "internal/engine/parser.go:sameValue:reflectV:b.Pointer×2", rSame⟩,
   ⟨5901530174693439963, "internal/engine/parser.go:sameValue:reflectV:b.Uint", rSame⟩,
-  ⟨10557588907096683634, "internal/engine/parser.go:validatePointer:reflectV:reflect.ValueOf(&v).Elem", "pointer to a local variable: never nil"⟩,
-  ⟨18334048305965685180, "internal/engine/parser.go:validatePointer:reflectV:reflect.ValueOf(ptr).Elem", "both callers return before on p == nil and dereference *p in the call; Elem of a non-nil *T is valid"⟩,
+  ⟨15345583584449320247, "internal/engine/parser.go:validatePointer:reflectV:reflect.ValueOf(&v).Elem×2", "pointer to a local variable: never nil (two uses since 3302475: sameValue and sameEntries)"⟩,
+  ⟨1660640290014876089, "internal/engine/parser.go:validatePointer:reflectV:reflect.ValueOf(ptr).Elem×2", "both callers return before on p == nil and dereference *p in the call; Elem of a non-nil *T is valid (two uses since 3302475)"⟩,
+  ⟨16619464385031058473, "internal/engine/parser.go:sameEntries:reflectV:b.IsNil", "sameEntries(a, b): a and b are two values of ONE type (validatePointer builds both from v : T and the non-nil ptr : *T); a.Kind() == Map is tested first in the same short-circuit condition, so b is a map and IsNil is defined; run-covered by the pointer-to-map stream"⟩,
   ⟨6564284307537644925, "internal/engine/types.go:InitZodType:assert:any(schema).(core.ZodType[any])", rCtor⟩,
   ⟨73428325107682150, "internal/issues/creators.go:CreateRestParameterTooSmallError:store:raw.Properties[\"is_rest_param\"]", "CreateTooSmallIssue always returns a literal Properties map"⟩,
   ⟨341650263362698964, "internal/issues/errors.go:FlattenErrorWithMapper:index:issue.Path[0]", "else-branch of slicex.IsEmpty(issue.Path); formatting API, not Parse"⟩,
